@@ -3,7 +3,21 @@
 def runs(quick, thorough):
     return {'quick': quick, 'thorough': thorough}
 
+LOCKING_RULE = ('block histories (begin-block with votes/evidence from the tracked CometBFT set, one execution-layer request list '
+  'with creates/locks/unlocks/claims/weights/thresholds/grants, end-block, hand-over, state dumps) over 2..7 validators x 1..4 tokens, '
+  'amounts from 0/dust to 2^100, failing request lists included; distinct = distinct op-shape signatures of a history')
+def locking(pid, nq=320, nt=6000, blocks=14):
+    return runs([{'family': 'locking', 'n': nq, 'shards': 16, 'param': f'proj={pid},blocks={blocks}'}],
+                [{'family': 'locking', 'n': nt, 'shards': 64, 'param': f'proj={pid},blocks={blocks+10}'}])
+
 PROPS = {
+ 'C11': {
+   'runs': locking('C11'),
+   'monitor_props': ['C11'],
+   'rule': LOCKING_RULE,
+   'assumptions': ['amounts stay below the 256-bit limit of math.Int (the overflow panic is not modelled)',
+                   'request amounts are non-negative (they are decoded from unsigned EVM words)'],
+ },
  'C04': {
    'runs': runs([{'family': 'merkle', 'n': 3000, 'shards': 16}],
                 [{'family': 'merkle', 'n': 60000, 'shards': 64}]),
